@@ -774,6 +774,12 @@ class diff_match_patch:
                 pointer += 1
             pointer += 1
 
+        # An edit that is a prefix or suffix of its neighbour is trimmed
+        # down to nothing by the overlap pass. Drop such empty edits.
+        if any(not text for (op, text) in diffs):
+            diffs[:] = [d for d in diffs if d[1]]
+            self.diff_cleanupMerge(diffs)
+
     def diff_cleanupSemanticLossless(self, diffs):
         """Look for single edits surrounded on both sides by equalities
         which can be shifted sideways to align the edit to a word boundary.
